@@ -122,7 +122,8 @@ def run1 (c : Case) : CaseResult := Id.run do
           if implCostLo > witCostHi + tol then
             -- in the aligned-sides class the optimum is the taut route along the common side line, which
             -- libavoid finds; the message prefix keeps that class out of the known "not-minimal" finding
-            let pre := if c.tag.startsWith "aligned-sides" then "aligned-not-minimal" else "not-minimal"
+            let pre := if c.tag.startsWith "aligned-sides" then "aligned-not-minimal"
+              else if c.tag.startsWith "fractional" then "fractional-not-minimal" else "not-minimal"
             fails := (0, .specfail s!"{pre} conn {id} (penalty {dec penalty}): route cost length+penalty·bends ≥ {dec implCostLo} ({nb} bends) but a certified obstacle-free path of cost ≤ {dec witCostHi} ({bends witPts} bends) exists") :: fails
           else
             -- lower side: only compared with the oracle's (unverified) optimum
